@@ -24,7 +24,7 @@ let state_str (s : rst) =
     | Some p -> ((match p.rpk with RLength _ -> "length" | RUntilEof -> "eof"
                                    | RChunked RSize -> "c-size" | RChunked (RData _) -> "c-data"
                                    | RChunked (RDataEnd false) -> "c-dataend" | RChunked (RDataEnd true) -> "c-dataend-cr"
-                                   | RChunked RTrail0 -> "c-trail0" | RChunked RTrailers -> "c-trailers"),
+                                   | RChunked RTrailers -> "c-trailers"),
                  List.length p.rctail, List.length p.rtlines, sum_len p.rtlines) in
   Printf.sprintf "up=%s tail=%d lines=%d linebytes=%d pk=%s ctail=%d tlines=%d tlbytes=%d inflight=%d close=%s"
     (b01 s.rupgraded) (List.length s.rtail) (List.length s.rlines) (sum_len s.rlines) pk ct tl tlb
